@@ -338,8 +338,10 @@ I2(t) == IF t.mask = 0 THEN TRUE
               ELSE \A i \in 0..(W-1) : t.ctrl[t.mask + 1 + i] = t.ctrl[i]
 I3(t) == t.items = NumFull(t)
 I4(t) == NumEmpty(t) >= 1
+\* strict: the exact accounting of the current load-factor policy.  Otherwise only what safety needs, whatever the
+\* policy: consuming growth_left never-used slots must still leave one EMPTY bucket (probes terminate)
 I5(t, strict) == IF strict THEN t.gl = Cap(t.mask) - t.items - NumDel(t)
-                 ELSE t.gl >= 0 /\ t.gl <= Cap(t.mask) - t.items - NumDel(t)
+                 ELSE t.gl >= 0 /\ (IF t.mask = 0 THEN t.gl = 0 ELSE t.gl <= NumEmpty(t) - 1)
 I6F(t, F) == \A i \in F : t.ctrl[i] = t.data[i][6]
 I6(t) == I6F(t, FullIdx(t))
 \* reachability: probing for the occupant's hash reaches its bucket before a group with an EMPTY byte
@@ -366,7 +368,8 @@ InvDiag(t, strict, map) ==
       nd == NumDel(t)
       i3 == t.items = Cardinality(F)
       i4 == NumEmpty(t) >= 1
-      i5 == IF strict THEN t.gl = Cap(t.mask) - t.items - nd ELSE t.gl >= 0 /\ t.gl <= Cap(t.mask) - t.items - nd
+      i5 == IF strict THEN t.gl = Cap(t.mask) - t.items - nd
+            ELSE t.gl >= 0 /\ (IF t.mask = 0 THEN t.gl = 0 ELSE t.gl <= NumEmpty(t) - 1)
       i9 == I9(t)
   IN
   (IF I2(t) THEN {} ELSE {"I2 mirror bytes"}) \cup (IF i3 THEN {} ELSE {"I3 items = number of FULL bytes"})
